@@ -153,3 +153,16 @@ def generic_replay(doc, check_case):
     if not hits:
         print("   does not fail on the current tree")
     return 1 if hits else 0
+
+
+def run_proved(run, pid):
+    """Call props/<pid>_proved.proved(run) when that module exists."""
+    import importlib
+    try:
+        mod = importlib.import_module(f"props.{pid}_proved")
+    except ModuleNotFoundError as e:
+        if e.name != f"props.{pid}_proved":
+            raise
+        run.notes.append("no PROVED-class obligations registered for this property yet")
+        return
+    mod.proved(run)
